@@ -154,6 +154,13 @@ impl Driver for CancelTwin {
                     // the application lets go of the handle and connects again
                     self.stage = 6;
                     self.tail = vec![Step::Connect(benign_connect(v.snap.session_present)), Step::Poll { max_wait: 0, cancel_at: None }, Step::Poll { max_wait: 0, cancel_at: None }, Step::Poll { max_wait: 0, cancel_at: None }].into();
+                    // (a request that was given up may leave more or less for the next connection
+                    // than the completed one: both runs are driven until everything owed is out)
+                    if matches!(self.request, Step::Publish(_) | Step::Subscribe(_) | Step::Unsubscribe(_)) {
+                        for _ in 0..24 {
+                            self.tail.push_back(Step::Poll { max_wait: 0, cancel_at: None });
+                        }
+                    }
                     if v.has_handle {
                         return Some(Step::DropConn);
                     }
@@ -399,7 +406,10 @@ impl Check for C13 {
         // one disconnect request in three is followed by "drop the handle, connect again, poll"
         // (and one poll / recv / drive request in four: a read given up in the middle of an
         // inbound packet must not reach into the next connection)
-        let reconnect_after = (matches!(request, Step::Disconnect(_)) && rng.chance(1, 3)) || (matches!(request, Step::Poll { .. } | Step::Recv { .. } | Step::Drive { .. }) && rng.chance(1, 4));
+        // (and one publish / subscribe / unsubscribe request in four: what a request that was given
+        // up left in the session - nothing, or the whole request - is what the next connection
+        // replays, flags included)
+        let reconnect_after = (matches!(request, Step::Disconnect(_)) && rng.chance(1, 3)) || (matches!(request, Step::Poll { .. } | Step::Recv { .. } | Step::Drive { .. } | Step::Publish(_) | Step::Subscribe(_) | Step::Unsubscribe(_)) && rng.chance(1, 4));
         // one queue-based request in four is followed by a QoS 0 publish
         let then_qos0 = matches!(request, Step::Publish(_) | Step::Subscribe(_) | Step::Unsubscribe(_)) && rng.chance(1, 4);
         if then_qos0 {
@@ -410,7 +420,7 @@ impl Check for C13 {
         let c_connect_ok = std::cell::Cell::new(true);
         // ... and half of those issue one more request on the handle first (it is refused if the
         // DISCONNECT was parked or sent, and then must leave nothing behind)
-        let other_op: Option<Step> = if reconnect_after && rng.chance(1, 2) {
+        let other_op: Option<Step> = if reconnect_after && !matches!(request, Step::Publish(_) | Step::Subscribe(_) | Step::Unsubscribe(_)) && rng.chance(1, 2) {
             Some(match rng.below(4) {
                 0 => Step::Subscribe(SubSpec { filters: vec![FilterSpec { filter: "c13/after".into(), max_qos: 1, no_local: false, rap: false, rh: 0 }], props: vec![], cancel_at: None }),
                 1 => Step::Unsubscribe(UnsubSpec { filters: vec!["c13/after".into()], props: vec![], cancel_at: None }),
@@ -558,6 +568,52 @@ impl Check for C13 {
                 let ok = match (la, lb, lc) {
                     // (a read given up half-way may leave an acknowledgement owed that the next
                     // connection carries: for poll / recv / drive only the CONNECT is compared)
+                    // (a request either went into the session whole or not at all)
+                    // (... whole: the next connection is that of the uncancelled run; not at all:
+                    // it carries what the run without the request carries, less what the call
+                    // that was given up had already sent of the packets owed before it)
+                    (Some(la), Some(lb), Some(lc)) if matches!(kind, "publish1" | "publish2" | "subscribe" | "unsubscribe") => {
+                        let ok_conn = |l: &RunLog| matches!(last_connect(l), Some(Outcome::Ok(_)));
+                        if !(ok_conn(&alog) && ok_conn(&blog) && c_connect_ok.get()) {
+                            // (one of the reconnects did not succeed, e.g. for lack of room for the
+                            // CONNECT next to what the session holds: judged by the rule above)
+                            out.count("reconnects_not_compared_for_a_failed_connect", 1);
+                            true
+                        } else {
+                            // the call that was given up did a part of what the completed call
+                            // did: what the completed call left for the next connection, the
+                            // given-up one left as well (the request itself only if it got into
+                            // the session), and whatever else the next connection carries is
+                            // something the session owed anyway (it is in the run without the
+                            // request) - all of it bit for bit, DUP flags included
+                            let enq = bops.iter().any(|o| !blog.ops[*o].new_retained.is_empty());
+                            // (the request's own packet: the PUBLISH / SUBSCRIBE / UNSUBSCRIBE
+                            // that carries the identifier the uncancelled call was given)
+                            let req_pid = aops.first().and_then(|o| alog.ops[*o].new_retained.first().copied());
+                            let own: Vec<&Vec<u8>> = la
+                                .iter()
+                                .filter(|p| match crate::refcodec::decode_client(p) {
+                                    Ok(CPacket::Publish { pid, .. }) => pid.is_some() && pid == req_pid,
+                                    Ok(CPacket::Subscribe { pid, .. }) | Ok(CPacket::Unsubscribe { pid, .. }) | Ok(CPacket::PubRel { pid, .. }) => Some(pid) == req_pid,
+                                    // (a replayed SUBSCRIBE / UNSUBSCRIBE carries the flag bit of the
+                                    // known C01 finding and does not decode strictly: identifier read
+                                    // from behind the remaining length)
+                                    Err(_) if matches!(p.first().map(|b| b >> 4), Some(8 | 10)) => {
+                                        let n = p.iter().skip(1).take(4).position(|b| b & 0x80 == 0).map(|k| k + 2);
+                                        n.and_then(|n| p.get(n..n + 2)).map(|b| u16::from_be_bytes([b[0], b[1]])) == req_pid
+                                    }
+                                    _ => false,
+                                })
+                                .collect();
+                            let la2: Vec<Vec<u8>> = la.iter().filter(|p| enq || !own.contains(p)).cloned().collect();
+                            let r = la.first() == lb.first() && subseq(&la2, lb) && lb.iter().all(|p| lc.contains(p) || la.contains(p)) && (enq || !lb.iter().any(|p| own.contains(&p)));
+                            if verbose && !r {
+                                println!("DEBUG enq={} own={} first={} sub={} all={} noown={}", enq, own.len(), la.first() == lb.first(), subseq(&la2, lb), lb.iter().all(|p| lc.contains(p) || la.contains(p)), !lb.iter().any(|p| own.contains(&p)));
+                                for (n, l) in [("la", la), ("lb", lb), ("lc", lc)] { for p in l.iter() { println!("DEBUG {} {}", n, describe(p)); } }
+                            }
+                            r
+                        }
+                    }
                     (Some(la), Some(lb), Some(lc)) if kind != "disconnect" => la.first() == lb.first() || lb == lc,
                     (Some(la), Some(lb), Some(lc)) => la == lb || lb == lc || (la.first() == lb.first() && subseq(la, lb) && subseq(lb, lc)),
                     _ => false,
@@ -590,6 +646,9 @@ impl Check for C13 {
                         break;
                     }
                     let pa: Vec<Vec<u8>> = if no_room { pa.iter().filter(|p| p.first() != Some(&0xE0)).cloned().collect() } else { pa.clone() };
+                    // (with the keep-alive deadline falling behind the request the PINGREQ's place
+                    // among the other packets depends on how many calls were made: not compared)
+                    let pa: Vec<Vec<u8>> = if advance_after.is_some() { pa.into_iter().filter(|p| p.first() != Some(&0xC0)).collect() } else { pa };
                     let pa = &pa;
                     let mut it = pb.iter();
                     if let Some(miss) = pa.iter().find(|x| !it.any(|y| y == *x)) {
@@ -1007,6 +1066,86 @@ fn send_buffer_full(rng: &mut Rng, seed: u64, verbose: bool) -> CaseOut {
     out
 }
 
+/// C15, the transport's send buffer fills up inside an acknowledgement the client owes (PUBACK,
+/// PUBREC, PUBCOMP): it accepts the first k bytes, for every k short of the whole packet, and
+/// then nothing more; the application gives the call up, lets go of the handle and connects
+/// again (resumed). The acknowledgement did not reach the broker in any of the runs, so what the
+/// next connection carries must not depend on k.
+fn stalled_ack(rng: &mut Rng, seed: u64, verbose: bool) -> CaseOut {
+    use crate::refcodec::SPacket;
+    let mut out = CaseOut::default();
+    let cfg = CaseCfg { rx: 128, tx: 512, keepalive: 0, ..CaseCfg::default() };
+    let pid = *rng.pick(&[1u16, 9, 65535]);
+    let which = rng.below(3);
+    let release = match rng.below(3) {
+        0 => Step::DropConn,
+        1 => Step::ForgetConn,
+        _ => Step::IntoInner,
+    };
+    let held = rng.below(2);
+    let mut prefix = vec![connect_with(SpMode::Force(false), AckMode::Hold, vec![])];
+    for k in 0..held {
+        prefix.push(pubq(1, "held", k as u32, 3));
+    }
+    if which == 2 {
+        // a QoS 2 exchange as far as PUBREC sent; the PUBCOMP is what gets stuck
+        prefix.push(Step::Broker(BrokerAct::Send(SPacket::Publish { dup: false, qos: 2, retain: false, topic: "in".into(), pid: Some(pid), props: vec![], payload: vec![1] })));
+        prefix.push(poll0());
+        prefix.push(poll0());
+    }
+    let inbound = match which {
+        0 => SPacket::Publish { dup: false, qos: 1, retain: false, topic: "in".into(), pid: Some(pid), props: vec![], payload: vec![1] },
+        1 => SPacket::Publish { dup: false, qos: 2, retain: false, topic: "in".into(), pid: Some(pid), props: vec![], payload: vec![1] },
+        _ => SPacket::PubRel { pid, reason: None, props: None },
+    };
+    let len = 4usize;
+    let mut reference: Option<(usize, Vec<u8>, Vec<String>)> = None;
+    for k in 0..len {
+        let mut steps = prefix.clone();
+        steps.push(Step::Broker(BrokerAct::WriteGate { after: k, blocks: 1 }));
+        steps.push(Step::Broker(BrokerAct::Send(inbound.clone())));
+        steps.push(poll0());
+        steps.push(poll0());
+        steps.push(release.clone());
+        let from = steps.len();
+        steps.push(connect_with(SpMode::Force(true), AckMode::Hold, vec![]));
+        for _ in 0..4 {
+            steps.push(poll0());
+        }
+        steps.push(pub1("last", 8, 1));
+        steps.push(poll0());
+        let (log, world) = run_script(&cfg, steps, seed);
+        let w = world.borrow();
+        out.evaluations += 1;
+        out.count("twins_compared", 1);
+        let stuck = w.conns[0].out.dangling() > 0 || k == 0;
+        if stuck {
+            out.count("acknowledgements_stuck_on_a_full_send_buffer", 1);
+            out.nontrivial.push(hash_of(&(abstract_trace(&log, &w), k, which)));
+        }
+        let Some(c1) = w.conns.get(1) else { continue };
+        let bytes = c1.out.bytes.clone();
+        let results: Vec<String> = log.ops.iter().filter(|o| o.step >= from).map(|o| format!("{}:{:?}", o.kind, o.outcome)).collect();
+        match &reference {
+            None => reference = Some((k, bytes, results)),
+            Some((rk, rb, rr)) => {
+                if *rb != bytes || *rr != results {
+                    let at = rb.iter().zip(&bytes).position(|(a, b)| a != b).unwrap_or(rb.len().min(bytes.len()));
+                    out.violations.push(viol("C15", "C15/stalled-acknowledgement/next-connection-depends-on-accepted-bytes", format!("owed acknowledgement for {:?}: with {} bytes accepted before the stall the next connection differs from the run with {} bytes accepted (streams differ at offset {}, {} vs {} bytes)", inbound.type_name(), k, rk, at, bytes.len(), rb.len())));
+                    if verbose {
+                        for l in render(&log, &w, 300) {
+                            println!("{}", l);
+                        }
+                    }
+                    break;
+                }
+            }
+        }
+    }
+    out.key(format!("stalled-ack/{}/held{}", which, held));
+    out
+}
+
 /// C15, the transport's send buffer is full when the application disconnects: it accepts the
 /// first k bytes of the DISCONNECT (every k from none to all of it) and then nothing more; the
 /// application gives the call up, lets go of the handle and connects again. What the next
@@ -1319,7 +1458,7 @@ impl Check for C15 {
         v
     }
     fn workloads(&self) -> Vec<Workload> {
-        vec![Workload { name: "fragment-twin", quick: 900, thorough: 600_000 }, Workload { name: "exhaustive-chunkings", quick: 60, thorough: 6000 }, Workload { name: "stalls-under-keepalive", quick: 400, thorough: 600_000 }, Workload { name: "connection-cut-inside-a-packet", quick: 150, thorough: 30_000 }, Workload { name: "send-buffer-full-inside-a-packet", quick: 300, thorough: 60_000 }, Workload { name: "connection-ends-inside-an-outbound-packet", quick: 200, thorough: 40_000 }, Workload { name: "outbound-packets-above-64k", quick: 12, thorough: 600 }, Workload { name: "stalled-disconnect-then-reconnect", quick: 200, thorough: 40_000 }]
+        vec![Workload { name: "fragment-twin", quick: 900, thorough: 600_000 }, Workload { name: "exhaustive-chunkings", quick: 60, thorough: 6000 }, Workload { name: "stalls-under-keepalive", quick: 400, thorough: 600_000 }, Workload { name: "connection-cut-inside-a-packet", quick: 150, thorough: 30_000 }, Workload { name: "send-buffer-full-inside-a-packet", quick: 300, thorough: 60_000 }, Workload { name: "connection-ends-inside-an-outbound-packet", quick: 200, thorough: 40_000 }, Workload { name: "outbound-packets-above-64k", quick: 12, thorough: 600 }, Workload { name: "stalled-disconnect-then-reconnect", quick: 200, thorough: 40_000 }, Workload { name: "stalled-acknowledgement-then-reconnect", quick: 200, thorough: 40_000 }]
     }
     fn min_nontrivial(&self, tier: Tier) -> usize {
         if tier == Tier::Quick { 300 } else { 3000 }
@@ -1350,6 +1489,9 @@ impl Check for C15 {
         }
         if workload == 7 {
             return stalled_disconnect(&mut rng, seed, verbose);
+        }
+        if workload == 8 {
+            return stalled_ack(&mut rng, seed, verbose);
         }
         let profile = c15_profile(&mut rng);
         let cfg = {
